@@ -207,6 +207,14 @@ func (u *Upstream) waitToSendAllDataPointsAndReceiveAllAck(ctx context.Context) 
 	}
 
 	u.receivedAck.L.Lock()
+	// wake the wait below when either context ends; a condition variable does not watch contexts
+	wake := func() {
+		u.receivedAck.L.Lock()
+		u.receivedAck.Broadcast()
+		u.receivedAck.L.Unlock()
+	}
+	defer context.AfterFunc(parentCtx, wake)()
+	defer context.AfterFunc(ctx, wake)()
 	var err error
 	var remaining map[uint32]DataPointGroups
 LOOP:
